@@ -1,7 +1,11 @@
 package main
 
 import (
+	"context"
+
 	"verif/harness/hk"
+
+	mcp "trpc.group/trpc-go/trpc-mcp-go"
 
 	"fmt"
 	"regexp"
@@ -24,12 +28,13 @@ type sOp struct {
 	Sid *int   `json:"sid,omitempty"`
 }
 
-var postKinds = []string{"initOk", "initBad", "request", "notifInitialized", "notifOther", "response", "responseEmpty", "invalid"}
+var postKinds = []string{"initOk", "initBad", "request", "requestChatty", "notifInitialized", "notifOther", "response", "responseEmpty", "invalid"}
 
 var bodies = map[string]string{
 	"initOk":           `{"jsonrpc":"2.0","id":1,"method":"initialize","params":{"protocolVersion":"2025-03-26","capabilities":{},"clientInfo":{"name":"verif","version":"1"}}}`,
 	"initBad":          `{"jsonrpc":"2.0","id":"a","method":"initialize"}`,
 	"request":          `{"jsonrpc":"2.0","id":2,"method":"ping"}`,
+	"requestChatty":    `{"jsonrpc":"2.0","id":"c3","method":"tools/call","params":{"name":"chatty","arguments":{}}}`,
 	"notifInitialized": `{"jsonrpc":"2.0","method":"notifications/initialized"}`,
 	"notifOther":       `{"jsonrpc":"2.0","method":"notifications/cancelled","params":{"requestId":5}}`,
 	"response":         `{"jsonrpc":"2.0","id":77,"result":{"roots":[]}}`,
@@ -170,6 +175,14 @@ func runSession(c *hk.Ctx) {
 func runSessionHistory(c *hk.Ctx, cfg hk.SrvCfg, h []sOp, foreignID string, dist map[string]int) {
 	f := hk.NewFixture(cfg)
 	defer f.Close()
+	f.S.RegisterTool(mcp.NewTool("chatty"), func(ctx context.Context, req *mcp.CallToolRequest) (*mcp.CallToolResult, error) {
+		// a handler that emits progress/log notifications before it returns (flushes the POST-SSE stream early)
+		if sender, ok := mcp.GetNotificationSender(ctx); ok {
+			sender.SendProgress(0.5, "half way")
+			sender.SendLogMessage("info", "chatty")
+		}
+		return mcp.NewTextResult("done"), nil
+	})
 	ids := []string{}       // symbolic index -> real id
 	idx := map[string]int{} // real id -> symbolic index
 	streams := map[int]*hk.Stream{}
@@ -262,10 +275,17 @@ func runSessionHistory(c *hk.Ctx, cfg hk.SrvCfg, h []sOp, foreignID string, dist
 				if (refKind == "bogus" || (refKind == "sid" && !expectedAlive[refSid])) && r.Status != 404 {
 					c.Violate(hk.Violation{Fingerprint: "session:unknown-id-not-404:post", What: "POST bearing an unknown/deleted session id not refused with 404", Input: map[string]any{"cfg": cfg, "history": h[:oi+1]}, Observed: r.Status})
 				}
-				if refKind == "sid" && expectedAlive[refSid] && (op.K == "request" || op.K == "initOk") {
+				if refKind == "sid" && expectedAlive[refSid] && (op.K == "request" || op.K == "requestChatty" || op.K == "initOk") {
 					if r.Status != 200 || out["sid"] != any(refSid) {
 						c.Violate(hk.Violation{Fingerprint: "session:live-id-not-served", What: "request bearing a live session id not served with 200 and the same id", Input: map[string]any{"cfg": cfg, "history": h[:oi+1]}, Observed: map[string]any{"status": r.Status, "sid": out["sid"]}})
 					}
+				}
+			}
+			if cfg.Mode == "stateless" {
+				want := map[string]int{"initOk": 200, "initBad": 200, "request": 200, "requestChatty": 200, "notifInitialized": 202, "notifOther": 202, "response": 202, "responseEmpty": 202, "invalid": 400}[op.K]
+				if r.Status != want {
+					c.Violate(hk.Violation{Fingerprint: "session:stateless-answer-depends-on-id-or-history", What: "in stateless mode the answer must not depend on a session id or on earlier requests",
+						Input: map[string]any{"cfg": cfg, "history": h[:oi+1], "ref": refKind}, Observed: r.Status, Expected: want})
 				}
 			}
 			if cfg.Mode == "stateless" && r.Header != nil && r.Header.Get("Mcp-Session-Id") != "" {
